@@ -15,6 +15,7 @@ pub open spec fn is_shield3(p: Seq<u8>) -> bool { p.len() == 3 && p[0] == 47 && 
 pub open spec fn push_text(p: Seq<u8>, seg: Seq<u8>, fa: bool, at0: bool) -> Seq<u8> {
     push_text0(if fa && !at0 && p.len() == 0 { sq1(47) } else { p }, seg, fa, at0)
 }
+#[verifier::opaque]
 pub open spec fn push_text0(p: Seq<u8>, seg: Seq<u8>, fa: bool, at0: bool) -> Seq<u8> {
     if p_is_empty(p) {
         if (at0 && has_colon(seg)) || seg.len() == 0 { p + sq2(46, 47) + seg } else { p + seg }
@@ -41,6 +42,7 @@ pub proof fn lemma_cs_is_csqf_seg(s: Seq<u8>)
     requires seg_shape(s),
     ensures has_colon(s) == first_seg_has_colon(s),
 {
+    reveal(path_fits); reveal(emb_fits);
     assert(path_shape(s));
     lemma_cs_is_csqf(s, 0);
 }
@@ -49,6 +51,7 @@ pub proof fn lemma_push_shape(p: Seq<u8>, seg: Seq<u8>, fa: bool, at0: bool)
     requires path_shape(p), seg_shape(seg),
     ensures path_shape(push_text(p, seg, fa, at0)),
 {
+    reveal(path_fits); reveal(emb_fits);
     let p0 = if fa && !at0 && p.len() == 0 { sq1(47) } else { p };
     lemma_push_shape0(p0, seg, fa, at0);
 }
@@ -56,6 +59,8 @@ pub proof fn lemma_push_shape0(p: Seq<u8>, seg: Seq<u8>, fa: bool, at0: bool)
     requires path_shape(p), seg_shape(seg),
     ensures path_shape(push_text0(p, seg, fa, at0)),
 {
+    reveal(path_fits); reveal(emb_fits);
+    reveal(push_text0); reveal(push_buf0);
     let r = push_text0(p, seg, fa, at0);
     assert forall|j: int| 0 <= j < r.len() implies !cls(C_QF, #[trigger] r[j]) by {
         if p_is_empty(p) {
@@ -91,6 +96,7 @@ verus! {
 pub open spec fn push_buf(o: Seq<u8>, lo: int, hi: int, sg: Seq<u8>, fa: bool) -> Seq<u8> {
     if fa && lo > 0 && lo == hi { push_buf0(splice(o, hi, hi, sq1(47)), lo, hi + 1, sg, fa) } else { push_buf0(o, lo, hi, sg, fa) }
 }
+#[verifier::opaque]
 pub open spec fn push_buf0(o: Seq<u8>, lo: int, hi: int, sg: Seq<u8>, fa: bool) -> Seq<u8> {
     let p = o.subrange(lo, hi);
     if p_is_empty(p) {
@@ -109,6 +115,7 @@ pub proof fn lemma_push_buf(o: Seq<u8>, lo: int, hi: int, sg: Seq<u8>, fa: bool)
         &&& n.subrange(lo, lo + np.len()) =~= np
     }),
 {
+    reveal(path_fits); reveal(emb_fits);
     if fa && lo > 0 && lo == hi {
         let o1 = splice(o, hi, hi, sq1(47));
         lemma_push_buf0(o1, lo, hi + 1, sg, fa);
@@ -131,6 +138,8 @@ pub proof fn lemma_push_buf0(o: Seq<u8>, lo: int, hi: int, sg: Seq<u8>, fa: bool
         &&& n.subrange(lo, lo + np.len()) =~= np
     }),
 {
+    reveal(path_fits); reveal(emb_fits);
+    reveal(push_text0); reveal(push_buf0);
     let p = o.subrange(lo, hi);
     let n = push_buf0(o, lo, hi, sg, fa);
     assert(o.subrange(hi, hi) =~= sq0());
@@ -149,6 +158,7 @@ verus! {
 /// the path text is unambiguous where it sits: fa = follows an authority, at0 = starts the buffer
 /// (embedded handles have fa ==> !at0; a stand-alone path buffer has at0 && fa, where nothing
 /// is required beyond being a path)
+#[verifier::opaque]
 pub open spec fn emb_fits(p: Seq<u8>, fa: bool, at0: bool) -> bool {
     &&& path_shape(p)
     &&& (fa && !at0 ==> p.len() == 0 || p[0] == 47)
@@ -160,6 +170,8 @@ pub proof fn lemma_push_fits(p: Seq<u8>, sg: Seq<u8>, fa: bool, at0: bool)
     requires emb_fits(p, fa, at0), seg_shape(sg),
     ensures emb_fits(push_text(p, sg, fa, at0), fa, at0),
 {
+    reveal(path_fits); reveal(emb_fits);
+    reveal(push_text0); reveal(push_buf0);
     lemma_push_shape(p, sg, fa, at0);
     lemma_cs_is_csqf_seg(sg);
     let p0 = if fa && !at0 && p.len() == 0 { sq1(47) } else { p };
@@ -200,6 +212,7 @@ pub proof fn lemma_path_edit_ref(o: Seq<u8>, np: Seq<u8>)
     ensures set_post(o, o.subrange(0, x_auth_end(o)) + np + o.subrange(x_path_end(o), o.len() as int),
                      r_scheme(o), r_auth(o), np, r_query(o), r_frag(o)),
 {
+    reveal(path_fits); reveal(emb_fits);
     lemma_ref_pieces(o);
     lemma_x_parts_is_rfc(o);
     lemma_first_of_bounds(o, 0, C_CSQF);
@@ -216,6 +229,7 @@ pub proof fn lemma_prefix_fits(p: Seq<u8>, cut: int, fa: bool, at0: bool)
     requires emb_fits(p, fa, at0), p_first_off(p) <= cut <= p.len(), cut == p_first_off(p) || (cut < p.len() && p[cut] == 47),
     ensures emb_fits(p.subrange(0, cut), fa, at0),
 {
+    reveal(path_fits); reveal(emb_fits);
     let r = p.subrange(0, cut);
     assert(forall|j: int| 0 <= j < r.len() ==> #[trigger] r[j] == p[j]);
     if at0 && !fa {
@@ -232,6 +246,7 @@ pub proof fn lemma_pop_fits(p: Seq<u8>, fa: bool, at0: bool)
     requires emb_fits(p, fa, at0),
     ensures emb_fits(pop_text(p, fa, at0), fa, at0),
 {
+    reveal(path_fits); reveal(emb_fits);
     if (p_is_empty(p) && !p_is_abs(p)) || (!p_is_empty(p) && is_dotdot(last_seg(p))) {
         assert(seg_shape(sq2(46, 46)));
         lemma_push_fits(p, sq2(46, 46), fa, at0);
@@ -245,13 +260,146 @@ pub proof fn lemma_clear_fits(p: Seq<u8>, fa: bool, at0: bool)
     requires emb_fits(p, fa, at0),
     ensures emb_fits(clear_text(p), fa, at0),
 {
+    reveal(path_fits); reveal(emb_fits);
     lemma_prefix_fits(p, p_first_off(p), fa, at0);
 }
 pub proof fn lemma_sym_push_fits(p: Seq<u8>, sg: Seq<u8>, fa: bool, at0: bool)
     requires emb_fits(p, fa, at0), seg_shape(sg),
     ensures emb_fits(sym_push_text(p, sg, fa, at0), fa, at0),
 {
+    reveal(path_fits); reveal(emb_fits);
     if is_dot(sg) { } else if is_dotdot(sg) { lemma_pop_fits(p, fa, at0); }
     else if sg.len() > 0 || !p_is_empty(p) { lemma_push_fits(p, sg, fa, at0); }
+}
+} // verus!
+verus! {
+/// a buffer `n` obtained from a reference text `o` by rewriting only its path window, the new
+/// path being unambiguous in its context, decomposes into the same scheme / authority / query /
+/// fragment and the new path
+pub proof fn lemma_path_edited(o: Seq<u8>, n: Seq<u8>)
+    requires ref_shape(o),
+        n.len() >= o.len() - (x_path_end(o) - x_auth_end(o)),
+        n.subrange(0, x_auth_end(o)) == o.subrange(0, x_auth_end(o)),
+        n.subrange(n.len() - (o.len() - x_path_end(o)), n.len() as int) == o.subrange(x_path_end(o), o.len() as int),
+        emb_fits(n.subrange(x_auth_end(o), n.len() - (o.len() - x_path_end(o))), x_has_auth(o), x_auth_end(o) == 0),
+    ensures set_post(o, n, r_scheme(o), r_auth(o), n.subrange(x_auth_end(o), n.len() - (o.len() - x_path_end(o))), r_query(o), r_frag(o)),
+{
+    reveal(path_fits); reveal(emb_fits);
+    lemma_x_layout(o);
+    let ae = x_auth_end(o); let pe = x_path_end(o);
+    let np = n.subrange(ae, n.len() - (o.len() - pe));
+    if x_has_auth(o) { assert(ae > 0); }
+    lemma_path_edit_ref(o, np);
+    assert(n =~= o.subrange(0, ae) + np + o.subrange(pe, o.len() as int));
+}
+} // verus!
+verus! {
+/// symbolic_append: fold of symbolic_push over the yielded segments, then an empty segment if the
+/// last one was a dot segment ("open") and the path is not empty
+pub open spec fn sym_fold(p: Seq<u8>, l: Seq<Seq<u8>>, fa: bool, at0: bool) -> (Seq<u8>, bool)
+    decreases l.len()
+{
+    if l.len() == 0 { (p, false) }
+    else {
+        let r = sym_fold(p, l.drop_last(), fa, at0);
+        (sym_push_text(r.0, l.last(), fa, at0), is_dot(l.last()) || is_dotdot(l.last()))
+    }
+}
+pub open spec fn sym_append_text(p: Seq<u8>, l: Seq<Seq<u8>>, fa: bool, at0: bool) -> Seq<u8> {
+    let r = sym_fold(p, l, fa, at0);
+    if r.1 && !p_is_empty(r.0) { push_text(r.0, sq0(), fa, at0) } else { r.0 }
+}
+pub proof fn lemma_sym_fold_push(p: Seq<u8>, l: Seq<Seq<u8>>, s: Seq<u8>, fa: bool, at0: bool)
+    ensures sym_fold(p, l.push(s), fa, at0) == (sym_push_text(sym_fold(p, l, fa, at0).0, s, fa, at0), is_dot(s) || is_dotdot(s)),
+{
+    reveal(path_fits); reveal(emb_fits);
+    assert(l.push(s).drop_last() =~= l);
+}
+/// lengths: a symbolic push adds at most |segment| + 5 bytes
+pub proof fn lemma_sym_push_len(p: Seq<u8>, s: Seq<u8>, fa: bool, at0: bool)
+    ensures sym_push_text(p, s, fa, at0).len() <= p.len() + s.len() + 5,
+{
+    reveal(path_fits); reveal(emb_fits);
+    reveal(push_text0);
+    if is_dotdot(s) && !p_is_empty(p) {
+        lemma_seg_start_of(p, p_first_off(p), p.len() as int);
+    }
+}
+pub open spec fn total_len(l: Seq<Seq<u8>>) -> int
+    decreases l.len()
+{
+    if l.len() == 0 { 0 } else { total_len(l.drop_last()) + l.last().len() + 5 }
+}
+pub proof fn lemma_sym_fold_len(p: Seq<u8>, l: Seq<Seq<u8>>, fa: bool, at0: bool)
+    ensures sym_fold(p, l, fa, at0).0.len() <= p.len() + total_len(l), sym_append_text(p, l, fa, at0).len() <= p.len() + total_len(l) + 4, total_len(l) >= 0,
+    decreases l.len()
+{
+    reveal(path_fits); reveal(emb_fits);
+    reveal(push_text0);
+    if l.len() > 0 {
+        lemma_sym_fold_len(p, l.drop_last(), fa, at0);
+        lemma_sym_push_len(sym_fold(p, l.drop_last(), fa, at0).0, l.last(), fa, at0);
+    }
+}
+pub proof fn lemma_total_len_push(l: Seq<Seq<u8>>, s: Seq<u8>)
+    ensures total_len(l.push(s)) == total_len(l) + s.len() + 5,
+{
+    reveal(path_fits); reveal(emb_fits);
+    assert(l.push(s).drop_last() =~= l);
+}
+/// the pieces of a text from a piece start on weigh at most 6 * (remaining bytes + 1)
+pub proof fn lemma_total_len_split(p: Seq<u8>, i: int)
+    requires 0 <= i <= p.len(),
+    ensures total_len(split_from(p, i)) <= 6 * (p.len() - i + 1),
+    decreases p.len() - i
+{
+    reveal(path_fits); reveal(emb_fits);
+    lemma_first_of_bounds(p, i, C_SLASH);
+    let e = first_of(p, i, C_SLASH);
+    if e < p.len() {
+        lemma_total_len_split(p, e + 1);
+        lemma_total_len_front(p.subrange(i, e), split_from(p, e + 1));
+        assert(split_from(p, i) =~= seq![p.subrange(i, e)] + split_from(p, e + 1));
+    } else {
+        let one = seq![p.subrange(i, p.len() as int)];
+        assert(split_from(p, i) =~= one);
+        lemma_total_len_front(p.subrange(i, p.len() as int), Seq::<Seq<u8>>::empty());
+        assert(one =~= seq![p.subrange(i, p.len() as int)] + Seq::<Seq<u8>>::empty());
+    }
+}
+pub proof fn lemma_total_len_front(s: Seq<u8>, l: Seq<Seq<u8>>)
+    ensures total_len(seq![s] + l) == s.len() + 5 + total_len(l),
+    decreases l.len()
+{
+    reveal(path_fits); reveal(emb_fits);
+    let all = seq![s] + l;
+    if l.len() == 0 {
+        assert(all =~= seq![s]);
+        assert(all.drop_last() =~= Seq::<Seq<u8>>::empty());
+        assert(all.last() == s);
+        assert(total_len(all.drop_last()) == 0);
+        assert(total_len(l) == 0);
+    } else {
+        assert(all.drop_last() =~= seq![s] + l.drop_last());
+        assert(all.last() == l.last());
+        lemma_total_len_front(s, l.drop_last());
+    }
+}
+} // verus!
+
+verus! {
+pub proof fn lemma_total_len_prefix(a: Seq<Seq<u8>>, b: Seq<Seq<u8>>)
+    ensures total_len(a) <= total_len(a + b), total_len(a) >= 0,
+    decreases b.len()
+{
+    reveal(path_fits); reveal(emb_fits);
+    lemma_sym_fold_len(sq0(), a, false, false);
+    if b.len() > 0 {
+        lemma_total_len_prefix(a, b.drop_last());
+        assert((a + b).drop_last() =~= a + b.drop_last());
+        assert((a + b).last() == b.last());
+    } else {
+        assert(a + b =~= a);
+    }
 }
 } // verus!
